@@ -316,7 +316,8 @@ def run(tier: str, replay: str | None = None):
     if proof is not None and not proof.ok and not found_input:
         detail = ""
         if gen is not None:
-            detail = unclassified_sites_hint(gen["Sites.v"])
+            detail = {"unclassified_sites": unclassified_sites_hint(gen["Sites.v"])}
+            detail.update(unclassified_state_hint(gen["State.v"]))
         rep.violation({"kind": "broken-obligation", "theorem": "; ".join(proof.broken), "log": proof.log[-1500:],
                        "hint": detail}, no_failing_input=True)
 
@@ -389,3 +390,28 @@ def unclassified_sites_hint(gen_text):
         if "(" + line + "," not in audit:
             out.append(line)
     return out[:10]
+
+
+def unclassified_state_hint(gen_text):
+    """Name what is new in the state inventory: mutated module-/class-level objects and memoised
+    functions without an audit entry, cache key sites that are not pinned, and pinned sites
+    that disappeared (textual comparison with Det/StateAudit.v; only for the replay text)."""
+    audit = (lib.THEORIES / "Det" / "StateAudit.v").read_text()
+    new_state, new_keys = [], []
+    gen_rows = set()
+    for line in gen_text.splitlines():
+        line = line.strip().rstrip(";")
+        if line.startswith("StateItem ") and line.endswith(" true") and "(" + line + "," not in audit:
+            new_state.append(line)
+        if line.startswith("CacheKey "):
+            gen_rows.add(line)
+            if line not in audit:
+                new_keys.append(line)
+    gone = []
+    for line in audit.splitlines():
+        line = line.strip().rstrip(";")
+        if line.startswith("CacheKey ") and line not in gen_rows:
+            gone.append(line)
+    m = re.search(r"Definition resolution_key_fields[^\n]*", gen_text)
+    return {"unaudited_state": new_state[:10], "unpinned_cache_keys": new_keys[:10], "pinned_but_gone": gone[:10],
+            "resolution_key_fields": m.group(0)[-160:] if m else None}
